@@ -1,5 +1,6 @@
 import OZ.Model.TimelockController
 import OZ.Lemmas.Timelock
+import OZ.Lemmas.AccessOps
 /-
 Helper lemmas for the timelock-controller model: exact descriptions of an accepted
 `__check_auth` iteration, the frame of `__check_auth`, and what "consumed" means.
@@ -15,17 +16,15 @@ def Consumed (c c' : CState) (auth : List AuthTok) (fn : Nat) (args : List Nat) 
   getOperationState c.tl (opOf c.self fn args m).id = .ready ∧
   getOperationState c'.tl (opOf c.self fn args m).id = .done ∧
   (m.pred = Id.zero ∨ getOperationState c'.tl m.pred = .done) ∧
-  ((c.roles EXECUTOR).length ≠ 0 →
+  (c.executorCount ≠ 0 →
     ∃ ex, m.executor = some ex ∧ c.hasRole EXECUTOR ex = true ∧
       AuthTok.exec ex c.self fn args m.pred m.salt ∈ auth)
 
 /-- what `__check_auth` may change: operation ledgers (only Ready → Done), the ghost log; nothing else -/
 structure Frame (c c' : CState) : Prop where
   self : c'.self = c.self
-  roles : c'.roles = c.roles
-  admin : c'.admin = c.admin
-  pending : c'.pending = c.pending
-  maxTtl : c'.maxTtl = c.maxTtl
+  ac : c'.ac = c.ac
+  cfg : c'.cfg = c.cfg
   now : c'.tl.now = c.tl.now
   minDelay : c'.tl.minDelay = c.tl.minDelay
   calls : c'.tl.calls = c.tl.calls
@@ -34,11 +33,10 @@ structure Frame (c c' : CState) : Prop where
     (getOperationState c.tl id = .ready ∧ c'.tl.ledger id = 1)
 
 theorem Frame.refl (c : CState) : Frame c c :=
-  ⟨rfl, rfl, rfl, rfl, rfl, rfl, rfl, rfl, fun _ h => h, fun _ => Or.inl rfl⟩
+  ⟨rfl, rfl, rfl, rfl, rfl, rfl, fun _ h => h, fun _ => Or.inl rfl⟩
 
 theorem Frame.trans {a b c : CState} (h1 : Frame a b) (h2 : Frame b c) : Frame a c := by
-  refine ⟨h2.self.trans h1.self, h2.roles.trans h1.roles, h2.admin.trans h1.admin,
-    h2.pending.trans h1.pending, h2.maxTtl.trans h1.maxTtl, h2.now.trans h1.now,
+  refine ⟨h2.self.trans h1.self, h2.ac.trans h1.ac, h2.cfg.trans h1.cfg, h2.now.trans h1.now,
     h2.minDelay.trans h1.minDelay, h2.calls.trans h1.calls, fun id h => h2.one id (h1.one id h), ?_⟩
   intro id
   rcases h2.change id with e2 | ⟨r2, d2⟩
@@ -61,7 +59,7 @@ theorem liftTl_ok {c c' : CState} {r : Except Timelock.Err Timelock.State} (h : 
 
 theorem execGate_ok {c : CState} {auth : List AuthTok} {fn : Nat} {args : List Nat} {m : Meta}
     (h : execGate c auth fn args m = .ok ()) :
-    (c.roles EXECUTOR).length ≠ 0 →
+    c.executorCount ≠ 0 →
       ∃ ex, m.executor = some ex ∧ c.hasRole EXECUTOR ex = true ∧
         AuthTok.exec ex c.self fn args m.pred m.salt ∈ auth := by
   intro hne
@@ -112,7 +110,7 @@ theorem checkOne_frame {c c' : CState} {auth : List AuthTok} {ctx : Context} {m 
   obtain ⟨fn, args, tl', hctx, hg, hs, rfl⟩ := checkOne_ok h
   obtain ⟨h2, hn, hp, rfl⟩ := setExecute_ok hs
   have hready : getOperationState c.tl (opOf c.self fn args m).id = .ready := stateOf_ready.mpr ⟨h2, hn⟩
-  refine ⟨⟨rfl, rfl, rfl, rfl, rfl, rfl, rfl, rfl, ?_, ?_⟩, fn, args, hctx, hready, ?_, ?_, execGate_ok hg⟩
+  refine ⟨⟨rfl, rfl, rfl, rfl, rfl, rfl, ?_, ?_⟩, fn, args, hctx, hready, ?_, ?_, execGate_ok hg⟩
   · intro id h1
     show updId c.tl.ledger _ DONE_LEDGER id = 1
     by_cases e : id = (opOf c.self fn args m).id
@@ -157,10 +155,11 @@ theorem Consumed.extend {a b c d : CState} {auth : List AuthTok} {fn : Nat} {arg
       unfold getOperationState getOperationLedger at h1 ⊢
       exact stateOf_done.mpr (hcd.one _ (stateOf_done.mp h1))
   · intro hne
-    rw [hab.roles] at hx
+    have hcnt : b.executorCount = a.executorCount := by unfold CState.executorCount; rw [hab.ac]
+    rw [hcnt] at hx
     obtain ⟨ex, h1, h2, h3⟩ := hx hne
     refine ⟨ex, h1, ?_, ?_⟩
-    · unfold CState.hasRole at h2 ⊢; rw [hab.roles] at h2; exact h2
+    · unfold CState.hasRole at h2 ⊢; rw [hab.ac] at h2; exact h2
     · rw [hself] at h3; exact h3
 
 /-- the loop of `__check_auth`: every pair is a call on the controller whose operation is consumed -/
@@ -279,5 +278,247 @@ theorem ready_was_scheduled {s : Timelock.State} (hi : Inv s) {id : Id}
   unfold getOperationLedger at hn
   rw [hv] at hn
   exact (satAdd_le_iff_elapsed hi.nowHi).mp hn
+
+/-! ### the enlarged surface: access control on top of C06's model -/
+
+theorem withAc_ok {c c' : CState} {r : Except OZ.Access.Err AC} (h : withAc c r = .ok c') :
+    ∃ a, r = .ok a ∧ c' = { c with ac := a } := by
+  unfold withAc at h
+  cases r with
+  | error e => cases h
+  | ok a => injection h with h; exact ⟨a, rfl, h.symm⟩
+
+theorem withAdm_ok {c c' : CState} {r : Except OZ.RoleTransfer.Err RT} (h : withAdm c r = .ok c') :
+    ∃ t, r = .ok t ∧ c' = { c with ac := { c.ac with adm := t } } := by
+  unfold withAdm at h
+  cases r with
+  | error e => cases h
+  | ok t => injection h with h; exact ⟨t, rfl, h.symm⟩
+
+/-- `who.require_auth()`: either the controller itself (exactly one descriptor, its operation
+consumed) or an ordinary account that signed the call (nothing changes) -/
+theorem auth_step {c c1 : CState} {auth : List AuthTok} {sig : Option (List Meta)} {who fn : Nat}
+    {args : List Nat} (h : requireAuth checkAuth c auth sig who fn args = .ok c1) :
+    Frame c c1 ∧
+    ((who = c.self ∧ ∃ m, sig = some [m] ∧ Consumed c c1 auth fn args m) ∨
+     (who ≠ c.self ∧ AuthTok.call who ∈ auth ∧ c1 = c)) := by
+  rcases requireAuth_ok h with ⟨hw, metas, hs, hc⟩ | ⟨hne, hin, rfl⟩
+  · obtain ⟨fr, m, hm, hcons⟩ := self_auth_consumes hc
+    exact ⟨fr, Or.inl ⟨hw, m, by rw [hs, hm], hcons⟩⟩
+  · exact ⟨Frame.refl _, Or.inr ⟨hne, hin, rfl⟩⟩
+
+theorem admin_step {c c1 : CState} {auth : List AuthTok} {sig : Option (List Meta)} {fn : Nat}
+    {args : List Nat} (h : enforceAdminAuth checkAuth c auth sig fn args = .ok c1) :
+    ∃ a, c.admin = some a ∧ requireAuth checkAuth c auth sig a fn args = .ok c1 := by
+  unfold enforceAdminAuth at h
+  cases ha : c.admin with
+  | none => rw [ha] at h; cases h
+  | some a => rw [ha] at h; exact ⟨a, rfl, h⟩
+
+theorem mem_plainAuth {c : CState} {auth : List AuthTok} {p : Nat} :
+    p ∈ plainAuth c auth ↔ p ≠ c.self ∧ AuthTok.call p ∈ auth := by
+  unfold plainAuth
+  rw [List.mem_filterMap]
+  constructor
+  · rintro ⟨t, ht, hp⟩
+    cases t with
+    | call a =>
+      simp only at hp
+      split at hp
+      · cases hp
+      · rename_i hne; injection hp with hp; subst hp; exact ⟨hne, ht⟩
+    | exec a tg f ar pr sa => simp at hp
+  · rintro ⟨hne, hin⟩
+    exact ⟨.call p, hin, by simp [hne]⟩
+
+/-- what `__check_auth` can have done before the body of an entry point runs -/
+def CheckRel (c : CState) (auth : List AuthTok) (c1 : CState) : Prop :=
+  c1 = c ∨ ∃ metas ctxs, checkAuth c auth metas ctxs = .ok c1
+
+theorem CheckRel.frame {c c1 : CState} {auth : List AuthTok} (h : CheckRel c auth c1) : Frame c c1 := by
+  rcases h with rfl | ⟨metas, ctxs, hc⟩
+  · exact Frame.refl _
+  · exact (checkPairs_ok (checkAuth_ok hc).2).1
+
+theorem CheckRel.inv {c c1 : CState} {auth : List AuthTok} (h : CheckRel c auth c1) (hi : Inv c.tl) :
+    Inv c1.tl := by
+  rcases h with rfl | ⟨metas, ctxs, hc⟩
+  · exact hi
+  · exact checkPairs_inv hi (checkAuth_ok hc).2
+
+theorem requireAuth_rel {c c1 : CState} {auth : List AuthTok} {sig : Option (List Meta)} {who fn : Nat}
+    {args : List Nat} (h : requireAuth checkAuth c auth sig who fn args = .ok c1) : CheckRel c auth c1 := by
+  rcases requireAuth_ok h with ⟨_, metas, _, hc⟩ | ⟨_, _, rfl⟩
+  · exact Or.inr ⟨metas, _, hc⟩
+  · exact Or.inl rfl
+
+theorem enforceAdminAuth_rel {c c1 : CState} {auth : List AuthTok} {sig : Option (List Meta)} {fn : Nat}
+    {args : List Nat} (h : enforceAdminAuth checkAuth c auth sig fn args = .ok c1) : CheckRel c auth c1 := by
+  obtain ⟨a, _, h1⟩ := admin_step h
+  exact requireAuth_rel h1
+
+/-- the timelock call an entry point boils down to -/
+def Entry.tlOp : Entry → Option Timelock.Op
+  | .scheduleOp op d _ => some (.schedule op d)
+  | .cancelOp id _ => some (.cancel id)
+  | .executeOp op _ ok => some (.execute op ok)
+  | .advance n => some (.advance n)
+  | _ => none
+
+/-- how the access-control part of the state can move in one invocation -/
+def AcRel (a a' : AC) : Prop :=
+  a' = a ∨ (∃ acc r k, OZ.Access.grantRoleNoAuth a acc r k = .ok a') ∨
+  (∃ acc r k, OZ.Access.revokeRoleNoAuth a acc r k = .ok a') ∨
+  (∃ r ar, a' = OZ.Access.setRoleAdminNoAuth a r ar) ∨
+  (a'.accounts = a.accounts ∧ a'.hasRole = a.hasRole ∧ a'.count = a.count ∧
+    a'.existing = a.existing ∧ a'.roleAdmin = a.roleAdmin)
+
+theorem AcRel.inv {a a' : AC} (h : AcRel a a') (hi : OZ.Access.Inv a) : OZ.Access.Inv a' := by
+  rcases h with rfl | ⟨acc, r, k, h⟩ | ⟨acc, r, k, h⟩ | ⟨r, ar, rfl⟩ | ⟨h1, h2, h3, h4, _⟩
+  · exact hi
+  · exact (OZ.Access.grantRoleNoAuth_effect hi h).1
+  · exact (OZ.Access.revokeRoleNoAuth_effect hi h).1
+  · exact hi.congr rfl rfl (fun _ => rfl) rfl
+  · exact hi.congr h1 h2 (fun r => by unfold OZ.Access.cnt; rw [h3]) h4
+
+/-- Every accepted invocation is: possibly a run of `__check_auth` (`c → c1`), then at most one
+timelock call or a `set_min_delay` on `c1`, and one move of the access-control state. -/
+theorem applyE_decomp {c c' : CState} {auth : List AuthTok} {sig : Option (List Meta)} {x : Entry}
+    (h : applyE c auth sig x = .ok c') :
+    ∃ c1, CheckRel c auth c1 ∧ c'.self = c.self ∧ AcRel c1.ac c'.ac ∧
+      (match x.tlOp with
+       | some y => c1 = c ∧ Timelock.apply c.tl y = .ok c'.tl
+       | none => c'.tl = c1.tl ∨ ∃ d, x = .updateDelay d ∧ c'.tl = setMinDelay c1.tl d) := by
+  cases x with
+  | scheduleOp op d p =>
+    simp only [applyE, applyW, scheduleOp] at h
+    split at h
+    · cases h
+    · cases h1 : requireAuthPlain c auth p with
+      | error e => rw [h1] at h; cases h
+      | ok u =>
+        rw [h1] at h; simp only at h
+        obtain ⟨tl', hs, rfl⟩ := liftTl_ok h
+        exact ⟨c, Or.inl rfl, rfl, Or.inl rfl, rfl, hs⟩
+  | cancelOp id k =>
+    simp only [applyE, applyW, cancelOp] at h
+    split at h
+    · cases h
+    · cases h1 : requireAuthPlain c auth k with
+      | error e => rw [h1] at h; cases h
+      | ok u =>
+        rw [h1] at h; simp only at h
+        obtain ⟨tl', hs, rfl⟩ := liftTl_ok h
+        exact ⟨c, Or.inl rfl, rfl, Or.inl rfl, rfl, hs⟩
+  | executeOp op ex ok =>
+    simp only [applyE, applyW, executeOp] at h
+    cases h1 : executorGate c auth ex with
+    | error e => rw [h1] at h; cases h
+    | ok u =>
+      rw [h1] at h; simp only at h
+      obtain ⟨tl', hs, rfl⟩ := liftTl_ok h
+      exact ⟨c, Or.inl rfl, rfl, Or.inl rfl, rfl, hs⟩
+  | advance n =>
+    simp only [applyE, applyW, advanceC] at h
+    cases h1 : advance c.tl n with
+    | error e => rw [h1] at h; cases h
+    | ok tl' =>
+      rw [h1] at h; injection h with h; subst h
+      exact ⟨c, Or.inl rfl, rfl, Or.inr (Or.inr (Or.inr (Or.inr ⟨rfl, rfl, rfl, rfl, rfl⟩))), rfl, h1⟩
+  | updateDelay d =>
+    simp only [applyE, applyW, updateDelayW] at h
+    cases h1 : enforceAdminAuth checkAuth c auth sig FN_UPDATE_DELAY [vU32 d] with
+    | error e => rw [h1] at h; cases h
+    | ok c1 =>
+      rw [h1] at h; injection h with h; subst h
+      exact ⟨c1, enforceAdminAuth_rel h1, (enforceAdminAuth_rel h1).frame.self, Or.inl rfl, Or.inr ⟨d, rfl, rfl⟩⟩
+  | grantRole a r k =>
+    simp only [applyE, applyW, grantRoleW] at h
+    cases h1 : requireAuth checkAuth c auth sig k FN_GRANT_ROLE [vAddr a, vSym r, vAddr k] with
+    | error e => rw [h1] at h; cases h
+    | ok c1 =>
+      rw [h1] at h; simp only [guardedRoleChange] at h
+      cases h2 : OZ.Access.ensureIfAdminOrAdminRole c1.ac r k with
+      | error e => rw [h2] at h; cases h
+      | ok u =>
+        rw [h2] at h; simp only at h
+        obtain ⟨a', ha, rfl⟩ := withAc_ok h
+        exact ⟨c1, requireAuth_rel h1, (requireAuth_rel h1).frame.self, Or.inr (Or.inl ⟨a, r, k, ha⟩), Or.inl rfl⟩
+  | revokeRole a r k =>
+    simp only [applyE, applyW, revokeRoleW] at h
+    cases h1 : requireAuth checkAuth c auth sig k FN_REVOKE_ROLE [vAddr a, vSym r, vAddr k] with
+    | error e => rw [h1] at h; cases h
+    | ok c1 =>
+      rw [h1] at h; simp only [guardedRoleChange] at h
+      cases h2 : OZ.Access.ensureIfAdminOrAdminRole c1.ac r k with
+      | error e => rw [h2] at h; cases h
+      | ok u =>
+        rw [h2] at h; simp only at h
+        obtain ⟨a', ha, rfl⟩ := withAc_ok h
+        exact ⟨c1, requireAuth_rel h1, (requireAuth_rel h1).frame.self, Or.inr (Or.inr (Or.inl ⟨a, r, k, ha⟩)), Or.inl rfl⟩
+  | renounceRole r k =>
+    simp only [applyE, applyW, renounceRoleW] at h
+    cases h1 : requireAuth checkAuth c auth sig k FN_RENOUNCE_ROLE [vSym r, vAddr k] with
+    | error e => rw [h1] at h; cases h
+    | ok c1 =>
+      rw [h1] at h; simp only at h
+      obtain ⟨a', ha, rfl⟩ := withAc_ok h
+      exact ⟨c1, requireAuth_rel h1, (requireAuth_rel h1).frame.self, Or.inr (Or.inr (Or.inl ⟨k, r, k, ha⟩)), Or.inl rfl⟩
+  | setRoleAdmin r ar =>
+    simp only [applyE, applyW, setRoleAdminW] at h
+    cases h1 : enforceAdminAuth checkAuth c auth sig FN_SET_ROLE_ADMIN [vSym r, vSym ar] with
+    | error e => rw [h1] at h; cases h
+    | ok c1 =>
+      rw [h1] at h; injection h with h; subst h
+      exact ⟨c1, enforceAdminAuth_rel h1, (enforceAdminAuth_rel h1).frame.self, Or.inr (Or.inr (Or.inr (Or.inl ⟨r, ar, rfl⟩))), Or.inl rfl⟩
+  | transferAdmin a lu =>
+    simp only [applyE, applyW, transferAdminW] at h
+    cases h1 : enforceAdminAuth checkAuth c auth sig FN_TRANSFER_ADMIN [vAddr a, vU32 lu] with
+    | error e => rw [h1] at h; cases h
+    | ok c1 =>
+      rw [h1] at h; simp only at h
+      obtain ⟨t, _, rfl⟩ := withAdm_ok h
+      exact ⟨c1, enforceAdminAuth_rel h1, (enforceAdminAuth_rel h1).frame.self,
+        Or.inr (Or.inr (Or.inr (Or.inr ⟨rfl, rfl, rfl, rfl, rfl⟩))), Or.inl rfl⟩
+  | acceptAdmin =>
+    simp only [applyE, applyW, acceptAdmin] at h
+    obtain ⟨t, _, rfl⟩ := withAdm_ok h
+    exact ⟨c, Or.inl rfl, rfl, Or.inr (Or.inr (Or.inr (Or.inr ⟨rfl, rfl, rfl, rfl, rfl⟩))), Or.inl rfl⟩
+  | renounceAdmin =>
+    simp only [applyE, applyW, renounceAdminW] at h
+    cases h1 : enforceAdminAuth checkAuth c auth sig FN_RENOUNCE_ADMIN [] with
+    | error e => rw [h1] at h; cases h
+    | ok c1 =>
+      rw [h1] at h; simp only [dropAdmin] at h
+      cases h2 : OZ.RoleTransfer.refuseIfPending c1.ac.adm with
+      | error e => rw [h2] at h; cases h
+      | ok u =>
+        rw [h2] at h; injection h with h; subst h
+        exact ⟨c1, enforceAdminAuth_rel h1, (enforceAdminAuth_rel h1).frame.self,
+          Or.inr (Or.inr (Or.inr (Or.inr ⟨rfl, rfl, rfl, rfl, rfl⟩))), Or.inl rfl⟩
+  | checkAuth metas ctxs =>
+    exact ⟨c', Or.inr ⟨metas, ctxs, h⟩, (checkPairs_ok (checkAuth_ok h).2).1.self, Or.inl rfl, Or.inl rfl⟩
+
+/-- the governance-relevant part of the state is unchanged: minimum delay, role membership, role
+admins, admin, pending admin -/
+def SameGov (c c' : CState) : Prop :=
+  c'.tl.minDelay = c.tl.minDelay ∧ c'.ac.hasRole = c.ac.hasRole ∧ c'.ac.roleAdmin = c.ac.roleAdmin ∧
+  c'.ac.adm.holder = c.ac.adm.holder ∧ c'.ac.adm.pending = c.ac.adm.pending
+
+theorem Frame.sameGov {c c' : CState} (f : Frame c c') : SameGov c c' :=
+  ⟨f.minDelay, by rw [f.ac], by rw [f.ac], by rw [f.ac], by rw [f.ac]⟩
+
+/-- a timelock call other than `set_min_delay` leaves the minimum delay alone -/
+theorem apply_minDelay_same {s s' : Timelock.State} {y : Timelock.Op} (h : Timelock.apply s y = .ok s')
+    (hy : ∀ d, y ≠ .setMinDelay d) : s'.minDelay = s.minDelay := by
+  cases y with
+  | schedule op d => obtain ⟨_, _, _, _, rfl⟩ := schedule_ok h; rfl
+  | setExecute op => obtain ⟨_, _, _, rfl⟩ := setExecute_ok h; rfl
+  | execute op ok =>
+    obtain ⟨s1, h1, _, rfl⟩ := execute_ok h
+    obtain ⟨_, _, _, rfl⟩ := setExecute_ok h1; rfl
+  | cancel id => obtain ⟨_, rfl⟩ := cancel_ok h; rfl
+  | setMinDelay d => exact absurd rfl (hy d)
+  | advance n => obtain ⟨_, rfl⟩ := advance_ok h; rfl
 
 end OZ.TimelockController
